@@ -1189,6 +1189,14 @@ def restore(w: World, ag, data: bytes, path: str, case):
     hp = A.hp_config(cfg) if cfg["hp"] != "none" else None
     # "into an existing one": an agent of the same kind that has its own, different, hyperparameters and weights
     other = dict(cfg, lr=cfg["lr"] * 3.0, batch_size=cfg["batch_size"] + 1)
+    if hp is not None:
+        # ... and its own mutation ranges for the same hyper-parameters: the checkpoint's configuration has to win
+        for n_, p_ in hp.items():
+            if p_.dtype is int:
+                p_.min, p_.max = max(1, int(p_.min) - 1), int(p_.max) + 5
+            else:
+                p_.min, p_.max = p_.min * 0.5, p_.max * 2.0
+            p_.shrink_factor, p_.grow_factor = 0.5, 1.7
     if cfg.get("wrapper") == "RSNorm":
         # the wrapper's load path opens the file twice: a real file (private, removed afterwards) stands in for the disk
         import tempfile
